@@ -31,17 +31,20 @@ Theorem C16_sheets_in_order_xls : forall show_f64 c wb, xls_legal c wb = true ->
   exists p, xls_parse_workbook show_f64 (xls_stream c wb) = Ok p /\ p_sheets p = wb_sheets wb.
 Proof. exact sheets_in_order_xls. Qed.
 
-(* the whole xls report: Lbl records in order, each name resolved through the XTI table to the
-   sheet it names, the 3-D reference / area rendered with `$` exactly on the absolute components
-   (since the repair of C14's K_XLS_NAME_FORMULA the Lbl formula goes through the cell-formula decoder
-   Ptg.xls_parse_formula, with parse_defined_names as the fallback for what it rejects), date flag *)
+(* the whole xls report: Lbl records in order; the value of a name is ANY expression of C14's grammar
+   (Ptg.expr: 3-D references and areas through the XTI table to the sheet — or span of sheets First:Last —
+   they name, unions behind a PtgMemFunc / PtgMemArea as Excel writes Print_Titles and multi-area
+   Print_Area, constants, names stored before or after, #REF! forms; until audit 2 the domain was one 3-D
+   token), rendered by Ptg.render_xls; the rgce is found behind the name whatever extra data (rgcb)
+   follows it (audit 2, XLS-4); the XTI table has any length up to 65535 and is cut anywhere into the
+   ExternSheet record and its CONTINUE records (audit 2, XLS-5; until then: fewer than 1370); date flag *)
 Theorem C16_report_xls : forall show_f64 c wb, xls_legal c wb = true ->
   xls_parse_workbook show_f64 (xls_stream c wb) =
-  Ok (mkParsed (wb_sheets wb) [] (spec_names_xls c wb) (wb_1904 wb)).
+  Ok (mkParsed (wb_sheets wb) [] (spec_names_xls show_f64 c wb) (wb_1904 wb)).
 Proof. exact xls_parse_encode. Qed.
 
 Theorem C16_defined_names_in_order_xls : forall show_f64 c wb, xls_legal c wb = true ->
-  exists p, xls_parse_workbook show_f64 (xls_stream c wb) = Ok p /\ p_names p = spec_names_xls c wb.
+  exists p, xls_parse_workbook show_f64 (xls_stream c wb) = Ok p /\ p_names p = spec_names_xls show_f64 c wb.
 Proof. exact defined_names_in_order_xls. Qed.
 
 (* xls: the CodePage record (0x0042, [MS-XLS] 2.4.52) decides nothing in a BIFF8 workbook.
@@ -58,7 +61,7 @@ Theorem C16_report_xls_any_codepage : forall show_f64 cp c wb, cp < 65536 ->
   xls_parse_workbook show_f64 (xls_stream (MetaXlsCodePage_proofs.with_codepage cp c) wb) =
   xls_parse_workbook show_f64 (xls_stream c wb) /\
   xls_parse_workbook show_f64 (xls_stream (MetaXlsCodePage_proofs.with_codepage cp c) wb) =
-  Ok (mkParsed (wb_sheets wb) [] (spec_names_xls c wb) (wb_1904 wb)).
+  Ok (mkParsed (wb_sheets wb) [] (spec_names_xls show_f64 c wb) (wb_1904 wb)).
 Proof. exact MetaXlsCodePage_proofs.report_xls_any_codepage. Qed.
 
 Theorem C16_codepage_record_skipped_xls : forall d c rest st, 2 <= len d ->
@@ -70,13 +73,13 @@ Example C16_xls_codepage_nonvacuous :
             xls_legal (MetaXlsCodePage_proofs.with_codepage cp ex_xlsn_c) ex_xlsn_wb = true /\
             xls_parse_workbook (fun _ => [])
               (xls_stream (MetaXlsCodePage_proofs.with_codepage cp ex_xlsn_c) ex_xlsn_wb) =
-            Ok (mkParsed (wb_sheets ex_xlsn_wb) [] (spec_names_xls ex_xlsn_c ex_xlsn_wb) true))
+            Ok (mkParsed (wb_sheets ex_xlsn_wb) [] (spec_names_xls (fun _ => []) ex_xlsn_c ex_xlsn_wb) true))
          [1252; 1200; 932; 65001; 437; 54321; 0; 65535] /\
   firstn 10 (skipn 20 (xls_stream (MetaXlsCodePage_proofs.with_codepage 1252 ex_xlsn_c) ex_xlsn_wb)) =
     [66; 0; 2; 0; 228; 4; 225; 0; 2; 0] /\
   xls_legal MetaXlsCodePage_proofs.ex_xlsn_two ex_xlsn_wb = true /\
   xls_parse_workbook (fun _ => []) (xls_stream MetaXlsCodePage_proofs.ex_xlsn_two ex_xlsn_wb) =
-  Ok (mkParsed (wb_sheets ex_xlsn_wb) [] (spec_names_xls ex_xlsn_c ex_xlsn_wb) true).
+  Ok (mkParsed (wb_sheets ex_xlsn_wb) [] (spec_names_xls (fun _ => []) ex_xlsn_c ex_xlsn_wb) true).
 Proof. exact MetaXlsCodePage_proofs.xls_codepage_nonvacuous. Qed.
 
 (* one BoundSheet8 record: hsState is the low 2 bits of its byte, the other six are free *)
@@ -104,13 +107,18 @@ Theorem C16_sheets_in_order_xlsb : forall show_f64 c wb rjunk,
 Proof. exact sheets_in_order_xlsb. Qed.
 
 (* the whole xlsb report: sheets, the (name, part path) table, every defined name rendered by the
-   formula decoder under the XTI table and the names before it (any well-formed expression of
-   C14's grammar, through C14_rpn_correct_xlsb), date flag *)
+   formula decoder under the XTI table and the names of ALL BrtName records — PtgName indexes the whole
+   table and Excel stores the names sorted, so a name may use one stored after it (audit 2, XLSB-2,
+   repaired; the spec used to say "the names before it", like the code) — any well-formed expression of
+   C14's grammar, mem-prefixed unions and #REF! forms included, through C14_rpn_correct_xlsb; the EXTERNALS
+   block holds any number of supporting links (BrtSupBookSrc / BrtSupSelf / BrtSupSame / BrtSupAddin) in
+   any order and a legal XTI points, through a link to this workbook wherever it stands (Ptg.xti_local), at a
+   sheet or a span of sheets First:Last of this workbook; date flag *)
 Theorem C16_report_xlsb : forall show_f64 c wb rjunk,
   xlsb_legal c wb = true -> forallb junk_ok_brels rjunk = true ->
   xlsb_open show_f64 (xlsb_rels_events rjunk (bc_rels c)) (xlsb_workbook_bin c wb) =
   Ok (mkParsed (wb_sheets wb) (xlsb_paths c wb)
-               (spec_names_xlsb show_f64 (spec_ext (map m_name (wb_sheets wb)) (bc_xtis c)) []
+               (spec_names_xlsb show_f64 (spec_ext (map m_name (wb_sheets wb)) (bc_xtis c))
                                 (wb_names wb))
                (wb_1904 wb)).
 Proof. exact xlsb_open_encode. Qed.
@@ -241,17 +249,27 @@ Proof. exact xlsx_nonvacuous. Qed.
 Example C16_xlsb_nonvacuous :
   xlsb_legal ex_xlsb_c ex_xlsb_wb = true /\
   map fst (spec_names_xlsb (fun _ => []) (spec_ext (map m_name (wb_sheets ex_xlsb_wb)) (bc_xtis ex_xlsb_c))
-                           [] (wb_names ex_xlsb_wb)) = [[110]; [109]].
+                           (wb_names ex_xlsb_wb)) = [[110]; [109]] /\
+  nth_error (spec_names_xlsb (fun _ => []) (spec_ext (map m_name (wb_sheets ex_xlsb_wb)) (bc_xtis ex_xlsb_c))
+                             (wb_names ex_xlsb_wb)) 0 = Some ([110], [109; 42; 50]).
 Proof. exact xlsb_nonvacuous. Qed.
 
+(* sheets; an XTI table of 3 entries cut into the ExternSheet record and two CONTINUE records (the second cut
+   inside an XTI), one entry a span of sheets; names: a relative 3-D reference; _xlnm.Print_Titles as Excel
+   writes it (PtgMemFunc in front of the union of two 3-D areas) through the span, stored as the built-in id
+   7 with extra data behind the rgce; an area; a name defined through the name stored after it; a reference
+   that no longer exists *)
 Example C16_xls_nonvacuous :
   xls_legal ex_xlsn_c ex_xlsn_wb = true /\
-  spec_names_xls ex_xlsn_c ex_xlsn_wb =
+  spec_names_xls (fun _ => []) ex_xlsn_c ex_xlsn_wb =
     [([110], [97; 233; 33; 66; 36; 49]);
+     (s_xlnm ++ [80; 114; 105; 110; 116; 95; 84; 105; 116; 108; 101; 115],
+      [97; 233; 58; 128512; 20013; 33; 36; 65; 36; 49; 58; 36; 66; 36; 54; 53; 53; 51; 54; 44; 97; 233; 58; 128512; 20013; 33; 36; 65; 36; 49; 58; 36; 73; 86; 36; 50]);
      ([20013], [128512; 20013; 33; 36; 65; 36; 49; 58; 36; 90; 49; 48]);
-     (s_xlnm ++ [80; 114; 105; 110; 116; 95; 65; 114; 101; 97], [128512; 20013; 33; 35; 82; 69; 70; 33])] /\
-  (* the built-in name _xlnm.Print_Area is stored as its one-character id (fBuiltin) *)
-  lbl_units (s_xlnm ++ [80; 114; 105; 110; 116; 95; 65; 114; 101; 97]) (mkLn false 33 0 1) = [6].
+     ([97], [98; 42; 50]);
+     ([98], [128512; 20013; 33; 35; 82; 69; 70; 33])] /\
+  (* the built-in name _xlnm.Print_Titles is stored as its one-character id (fBuiltin) *)
+  lbl_units (s_xlnm ++ [80; 114; 105; 110; 116; 95; 84; 105; 116; 108; 101; 115]) (mkLn true 33 65 1 []) = [7].
 Proof. exact xlsn_nonvacuous. Qed.
 
 (* sheet-scoped names on two of three sheets (first child of the table / last child), the same
